@@ -162,6 +162,7 @@ structure Flow where
   name : String
   url : String
   methods : List String
+  expr : Bool             -- the filter carries `expressions` (evaluated by the engine on the message itself)
 deriving DecidableEq, Repr
 
 /-- `Filter.IsAnyURLAccepted` -/
@@ -261,7 +262,9 @@ def addFlow (ft : FTree) (f : Flow) : AddRes :=
     | .ok t' => .ok ⟨t', ft.nodes ++ [⟨[f]⟩], ft.byUrl ++ [(key, ft.nodes.length)]⟩
 
 /-- `isMethodQualified`: by the flow's OWN method list; none named = any method. -/
-def methodOK (f : Flow) (method : String) : Bool := f.methods.isEmpty || f.methods.contains method
+def methodOK (f : Flow) (method : String) : Bool :=
+  -- `isFlowValid`: an expression filter is validated by `validateExpr` alone, which does not look at the method
+  f.expr || f.methods.isEmpty || f.methods.contains method
 
 /-- `FilterTree.GetFlow`: names of the user flows selected for a request.  The traversal is w-c03's model
     `C03.lookupFlow` of url_tree_flow_traversal.go (after F03b/c/f: `matchedAll`, zero-segment wildcard, no
